@@ -106,6 +106,10 @@ def gen_one(rng, tier, magic=False, hidden=False):
             exts = rng.sample(EXTS, 2)
         else:
             exts = ['.nomatch']
+        if path not in ('', '.') and rng.random() < 0.15:
+            # the same directory (or file) spelled with a trailing
+            # separator or a trailing '/.'
+            path += rng.choice(['/', '/.'])
         rules.append({'path': path, 'exts': exts,
                       'args': [rng.randrange(100)
                                for _ in range(rng.randint(0, 2))],
@@ -155,7 +159,8 @@ def expected_population(root, rules, trim):
     per_rule = []
     dir_keys = set()
     for rule in rules:
-        full = os.path.join(root, rule['path'])
+        # 'x/' and 'x/.' name what 'x' names, also when x is a file
+        full = os.path.normpath(os.path.join(root, rule['path']))
         if not os.path.exists(full):
             per_rule.append({})
             continue
